@@ -253,7 +253,7 @@ def cli_sections(err_raw, diags, files, code, stats=None):
 
 def add_oscat(text, rng, non_ascii):
     body = rng.choice(["any text\nsecond line", "x", "", "a (* b *) c"]) if not non_ascii else \
-        rng.choice(["ébc", "日本語\nzwei", "grüße €", "ñ"])
+        rng.choice(["ébc", "日本語\nzwei", "grüße €", "ñ", "🙂", "a🙂b\n𝄞"])
     nl = rng.choice(["\n", "\r\n"])
     hdr = "%s%s%s%s%s%s" % (OSCAT_OPEN, nl, body.replace("\n", nl), nl, OSCAT_CLOSE, nl)
     return hdr + text
